@@ -231,3 +231,26 @@ Proof.
 From IQ Require LoopShiftPolytBridge.
 exact LoopShiftPolytBridge.shift_polyt_is_the_source. Qed.
 Print Assumptions C16_shift_polyt_is_the_source.
+
+(* ---- tie to the source, methods and the while fragment (tools/translate_loops.py -> gen/Loops.v, regenerated on every check):
+        PolyAFixer.count_polya_exons / count_polyt_exons WHOLE (the scan with its `break` as a fold with a `stopped` flag;
+        self.params.max_fake_terminal_exon_len as a parameter) and PolyAFixer.correct_read_info (the decrement loop as a Fixpoint on fuel).
+        For all inputs; no exception is possible; the loop terminates within len(read_exons) + 2 steps of fuel. *)
+Theorem C16_count_polya_exons_is_the_source : forall max_fake exons pos,
+  PolyA2.count_polya_exons max_fake exons pos = Loops.py_count_polya_exons max_fake exons pos /\ Loops.py_count_polya_exons_pre max_fake exons pos = true.
+Proof.
+From IQ Require LoopCountPolyABridge.
+exact LoopCountPolyABridge.count_polya_exons_is_the_source. Qed.
+Print Assumptions C16_count_polya_exons_is_the_source.
+Theorem C16_count_polyt_exons_is_the_source : forall max_fake exons pos,
+  PolyA2.count_polyt_exons max_fake exons pos = Loops.py_count_polyt_exons max_fake exons pos /\ Loops.py_count_polyt_exons_pre max_fake exons pos = true.
+Proof.
+From IQ Require LoopCountPolyTBridge.
+exact LoopCountPolyTBridge.count_polyt_exons_is_the_source. Qed.
+Print Assumptions C16_count_polyt_exons_is_the_source.
+Theorem C16_correct_read_info_is_the_source : forall max_fake exons int_a int_t fuel, (length exons + 1 < fuel)%nat ->
+  Loops.py_correct_read_info fuel max_fake exons int_a int_t = Loops.py_Done (PolyA2.correct_read_info2 max_fake exons int_a int_t).
+Proof.
+From IQ Require LoopCorrectReadInfoBridge.
+exact LoopCorrectReadInfoBridge.correct_read_info_is_the_source. Qed.
+Print Assumptions C16_correct_read_info_is_the_source.
